@@ -190,6 +190,63 @@ theorem pool_sorted (st : State) (ops : List Op) (h : WF P st) :
     WF P (run P st ops) ∧ ∀ now, ∀ n ∈ pruneExpired now (run P st ops).pool, now < n.expiresAt :=
   ⟨wf_run ops h, fun _ => prune_complete (wf_run ops h).sorted⟩
 
+/-- **Only expiry removes a salt.** Whatever traffic follows — any number of other accepted requests, forged bytes,
+clock advances — a node that is in the pool stays there until the clock reaches its expiry. (This is what any capacity
+bound or eviction policy other than expiry would break; `Add`'s step program `gen_add_program` pins that its body
+removes nothing except through `pruneExpired`.) -/
+theorem retained_until_expiry (st : State) (ops : List Op) (n : Node) (h : n ∈ st.pool)
+    (hl : (run P st ops).now < n.expiresAt) : n ∈ (run P st ops).pool := by
+  rcases live_run (P := P) ops (Or.inl h) with h | h
+  · exact h
+  · omega
+
+/-- `N` distinct fresh genuine requests presented at one instant -/
+def flood (N : Nat) : List Op := (List.range N).map (fun i => Op.present (genuine i 0#64) false)
+
+/-- **The pool is unbounded, by design.** `N` distinct genuine requests accepted within one validity span leave `N`
+nodes in the pool, for every `N`: memory grows with the handshake rate × `ReplayWindowDuration`; the property
+("whatever other traffic arrives in between") leaves no room for a size cap that forgets unexpired salts. -/
+theorem pool_unbounded (N : Nat) : (run P { now := 0, pool := [] } (flood N)).pool.length = N := by
+  suffices h : ∀ N, (run P { now := 0, pool := [] } (flood N)).now = 0 ∧
+      (run P { now := 0, pool := [] } (flood N)).pool.length = N ∧
+      ∀ n ∈ (run P { now := 0, pool := [] } (flood N)).pool, n.salt < N ∧ n.expiresAt = P.window from (h N).2.1
+  intro N
+  induction N with
+  | zero => simp [flood, run]
+  | succ k ih =>
+    obtain ⟨hnow, hlen, hall⟩ := ih
+    have hfl : flood (k + 1) = flood k ++ [Op.present (genuine k 0#64) false] := by
+      simp [flood, List.range_succ]
+    rw [hfl, run_append]
+    generalize run P { now := 0, pool := [] } (flood k) = st at hnow hlen hall
+    have hW : 0 < P.window := by decide
+    have hprune : pruneExpired 0 st.pool = st.pool := by
+      cases hp : st.pool with
+      | nil => rfl
+      | cons m rest =>
+        have := (hall m (by rw [hp]; simp)).2
+        show (if m.expiresAt > 0 then m :: rest else pruneExpired 0 rest) = m :: rest
+        have hpos : m.expiresAt > 0 := by omega
+        rw [if_pos hpos]
+    have hnc : contains st.pool k = false := by
+      cases hc : contains st.pool k
+      · rfl
+      · obtain ⟨m, hm, hs⟩ := (contains_iff _ _).mp hc
+        exact absurd hs (Nat.ne_of_lt (hall m hm).1)
+    have hv : tsValid P 0#64 0 = true := by decide
+    have hadd : add P 0 k st.pool = (st.pool ++ [{ salt := k, expiresAt := 0 + P.window }], true) := by
+      simp [add, hprune, hnc, SaltPool.insert]
+    have hh : handle P false 0 (genuine k 0#64) st.pool = (st.pool ++ [{ salt := k, expiresAt := 0 + P.window }], .accepted) := by
+      rw [handle_eq]; simp [genuine, tryContains, hnc, hv, hadd]
+    simp only [run, step, hnow, hh]
+    refine ⟨?_, ?_, ?_⟩
+    · trivial
+    · simp [hlen]
+    intro n hn
+    rcases List.mem_append.mp hn with hn | hn
+    · exact ⟨Nat.lt_succ_of_lt (hall n hn).1, (hall n hn).2⟩
+    · rw [List.mem_singleton.mp hn]; exact ⟨Nat.lt_succ_self k, Nat.zero_add _⟩
+
 /-! ## k concurrent presentations of one request -/
 
 /-- **One winner.** `k` threads run `HandleStream` on the same bytes `r` against one pool `p₀`; `sched` is any
@@ -326,6 +383,9 @@ example : tsValidWord P 946684830#64 946684800#64 = true ∧ tsValidWord P 94668
 example :
     let s := mrun P canonAdd (minit [] [{ now := 5, salt := 1 }, { now := 7, salt := 1 }]) [0, 1, 0, 1, 0, 0, 1, 0, 0, 1, 1, 1, 1, 1]
     s.hist = [({ now := 5, salt := 1 }, true), ({ now := 7, salt := 1 }, false)] ∧ s.holder = none := by decide
+/-- `retained_until_expiry`: hypotheses satisfiable after a flood of 3 other requests -/
+example : ({ salt := 0, expiresAt := P.window } : Node) ∈ (run P { now := 0, pool := [] } (flood 1)).pool ∧
+    (run P (run P { now := 0, pool := [] } (flood 1)) (flood 4)).now < P.window := by decide
 /-- `pool_sorted`: the empty pool is well-formed -/
 example : WF P { now := t₀, pool := [] } := wf_empty P t₀
 /-- `concurrent_one_winner`: two threads, the second one's `TryContains` contended, clocks out of order -/
@@ -356,6 +416,8 @@ end SSV.C03
 #print axioms SSV.C03.forged_invisible
 #print axioms SSV.C03.fresh_never_refused
 #print axioms SSV.C03.pool_sorted
+#print axioms SSV.C03.retained_until_expiry
+#print axioms SSV.C03.pool_unbounded
 #print axioms SSV.C03.concurrent_one_winner
 #print axioms SSV.C03.replay_possible
 #print axioms SSV.C03.replay_possible_before_fix
